@@ -1,5 +1,5 @@
 """Static class zoo for C14 (pickling / deep copy / cloning)."""
-from traits.api import (HasTraits, Int, Str, ReadOnly, List, Dict, Set, Instance, Property,
+from traits.api import (HasTraits, Any, Int, Str, ReadOnly, List, Dict, Set, Instance, Property,
                         PrototypedFrom, cached_property, observe)
 
 from .zoo import NodeBase
@@ -23,6 +23,9 @@ class Rec(NodeBase):
     children = List(Instance(NodeBase))
     members = Set(Instance(NodeBase))      # hashable but mutable elements
     log = List(transient=True)
+    # an untyped attribute holding a list: no copy metadata of its own (copied in the
+    # mode that the caller of clone_traits asks for)
+    blob = Any()
     total = Property(Int, observe="children.items.value")
     # a settable property: its value lives under another name in the dictionary
     sp = Property(Int)
